@@ -262,14 +262,30 @@ func probeSortedMap(rd sstables.SSTableReaderI, sorted []kv, probes [][]byte, lo
 	}
 	// a reader may carry state between calls (offset caches, reused scratch entries): the point lookups must give the
 	// same answers after all those scans as they did before
+	// this round hands every key over in one reused caller buffer that is overwritten after each call: a key slice
+	// belongs to the caller again once the call has returned
+	scratch := make([]byte, 0, 1024)
+	lend := func(p []byte) []byte {
+		if p == nil || len(p) > cap(scratch) {
+			return p
+		}
+		return append(scratch[:0], p...)
+	}
+	scribble := func() {
+		for i := range scratch[:cap(scratch)] {
+			scratch[:cap(scratch)][i] = 0xEE
+		}
+	}
 	for _, p := range probes {
 		*evals += 2
 		want := find(p)
-		c, err := rd.Contains(p)
+		c, err := rd.Contains(lend(p))
+		scribble()
 		if err != nil || c != (want != nil) {
 			add("", "after the scans: Contains(%s)=%v,%v want %v", keyStr(p), c, err, want != nil)
 		}
-		v, err := rd.Get(p)
+		v, err := rd.Get(lend(p))
+		scribble()
 		if want == nil {
 			if !errors.Is(err, sstables.NotFound) {
 				add("", "after the scans: Get(%s)=%s,%v want NotFound", keyStr(p), recStr(v), err)
